@@ -19,7 +19,7 @@ from .core import fh
 
 
 # ----------------------------------------------------------------------------- proposal
-def make_proposal(dims, mu=0.0, sigma=2.0, seed=0, xp_name="numpy"):
+def make_proposal(dims, mu=0.0, sigma=2.0, seed=0, xp_name="numpy", kind="gauss"):
     from aspire.flows.base import Flow
 
     class GaussProposal(Flow):
@@ -36,6 +36,9 @@ def make_proposal(dims, mu=0.0, sigma=2.0, seed=0, xp_name="numpy"):
         def _lp(self, x):
             x = ns.to_np(x)
             x = x.reshape(-1, self.dims) if x.ndim != 2 else x
+            if kind == "uniform":      # compact support: log q = -inf outside the box mu +- sigma
+                inb = np.all(np.abs(x - self.mu) <= self.sigma, axis=-1)
+                return np.where(inb, -self.dims * math.log(2 * self.sigma), -np.inf)
             return (-0.5 * ((x - self.mu) / self.sigma) ** 2 - math.log(self.sigma) - 0.5 * math.log(2 * math.pi)).sum(-1)
 
         def log_prob(self, x):
@@ -43,6 +46,9 @@ def make_proposal(dims, mu=0.0, sigma=2.0, seed=0, xp_name="numpy"):
             return self.xp.asarray(self._lp(x))
 
         def sample_and_log_prob(self, n):
+            if kind == "uniform":
+                x = self.mu + self.sigma * self.g.uniform(-1, 1, size=(n, self.dims))
+                return self.xp.asarray(x), self.xp.asarray(self._lp(x))
             x = self.mu + self.sigma * self.g.normal(size=(n, self.dims))
             return self.xp.asarray(x), self.xp.asarray(self._lp(x))
 
@@ -68,8 +74,9 @@ class Target:
     Logs every call; raises `Fault` at the `fault_at`-th likelihood call (0-based) or
     `fault_prior_at`-th prior call when set."""
 
-    def __init__(self, dims, center=1.0, width=0.5, half=10.0, nan_outside=False, peaked=None):
+    def __init__(self, dims, center=1.0, width=0.5, half=10.0, nan_outside=False, peaked=None, like_cut=None):
         self.dims, self.center, self.width, self.half = dims, center, width, half
+        self.like_cut = like_cut      # log-likelihood is -inf where x[0] < like_cut (zero-weight particles)
         self.nan_outside = nan_outside
         self.calls = []          # ("P"|"L", n_points, prior_attached, prior_matches, xhash)
         self.n_like = 0
@@ -92,6 +99,8 @@ class Target:
         v = -0.5 * np.sum((x - self.center) ** 2, axis=-1) / self.width ** 2
         if self.nan_outside:
             v = np.where(np.all(np.abs(x) <= self.half, axis=-1), v, np.nan)
+        if self.like_cut is not None:
+            v = np.where(x[:, 0] < self.like_cut, -np.inf, v)
         return v
 
     def log_prior(self, s):
@@ -152,14 +161,15 @@ class RecRng:
 DEFAULT = dict(sampler="minipcn_smc", ns="numpy", width="f64", dims=2, n_samples=24, adaptive=True, n_steps=None,
                min_step=None, max_n_steps=None, target_efficiency=0.5, target_efficiency_rate=1.0,
                n_final_samples=None, kernel_steps=3, seed=1, prop_sigma=2.0, prop_mu=0.0,
-               like_width=0.5, like_center=1.0, half=10.0, precond=None, checkpoint_every=None)
+               like_width=0.5, like_center=1.0, half=10.0, precond=None, checkpoint_every=None, like_cut=None)
 
 
 def make_sampler(cfg: dict, target: Target, rng=None):
     cfg = {**DEFAULT, **cfg}
     xp = ns.get_xp(cfg["ns"])
     dt = ns.native_dtype(cfg["ns"], cfg["width"])
-    flow = make_proposal(cfg["dims"], mu=cfg["prop_mu"], sigma=cfg["prop_sigma"], seed=cfg["seed"] + 17, xp_name=cfg["ns"])
+    flow = make_proposal(cfg["dims"], mu=cfg["prop_mu"], sigma=cfg["prop_sigma"], seed=cfg["seed"] + 17, xp_name=cfg["ns"],
+                         kind=cfg.get("prop_kind", "gauss"))
     params = [f"p{i}" for i in range(cfg["dims"])]
     transform = None
     if cfg.get("precond"):
@@ -204,7 +214,7 @@ class Timeout(Exception):
 def run_smc(cfg: dict, fault_at=None, fault_prior_at=None, watchdog_iters=400, **extra):
     """one call of sampler.sample; returns dict(status, samples, sampler, target, rng, exc, ckpts)"""
     cfg = {**DEFAULT, **cfg}
-    target = Target(cfg["dims"], center=cfg["like_center"], width=cfg["like_width"], half=cfg["half"])
+    target = Target(cfg["dims"], center=cfg["like_center"], width=cfg["like_width"], half=cfg["half"], like_cut=cfg["like_cut"])
     target.fault_at, target.fault_prior_at = fault_at, fault_prior_at
     rng = RecRng(cfg["seed"])
     if cfg["sampler"] == "emcee_smc":
